@@ -206,3 +206,45 @@ def imin(a, b):
 def int_prod_from(c, items):
     """c times the product of the decoded items"""
     return c * int_prod([b'\x01'] + list(items)) if items else c
+
+
+# ---- typed views of dict entries ------------------------------------------------------------------
+def is_bytes_or_absent(d, k):
+    return k not in d or type(d[k]) is bytes
+
+
+def is_bool_or_absent(d, k):
+    return k not in d or type(d[k]) is bool
+
+
+def is_int_or_absent(d, k):
+    return k not in d or type(d[k]) is int
+
+
+def is_list_or_absent(d, k):
+    return k not in d or type(d[k]) is list
+
+
+def list_len_at(d, k):
+    """len(d[k]) for a list entry, 0 when absent"""
+    return len(d[k]) if k in d else 0
+
+
+def calls(name):
+    """number of calls of a repository function made by the verified body on this path (ghost)"""
+    raise NotImplementedError('calls() is evaluated by the monitor')
+
+
+def ed_verify(key, message, sig):
+    from nacl.signing import VerifyKey
+    from nacl.exceptions import BadSignatureError
+    try:
+        VerifyKey(key).verify(message, sig)
+        return True
+    except BadSignatureError:
+        return False
+
+
+def ed_sign(seed, message):
+    from nacl.signing import SigningKey
+    return SigningKey(seed).sign(message).signature
